@@ -325,13 +325,20 @@ def decode_object(model, st: State, heap: dict, r: int, hint: Optional[T.Ty], de
             for fn, (ann, _d) in c.fields.items():
                 if ann is not None and fn not in names and fn != "model_config":
                     names.append(fn)
-        for key in heap:
-            if key.startswith("f:") and key[2:] not in names and not key[2:].startswith("net:"):
-                pass
-        for fn in names:
+        # attributes declared by `self.x: T = ...` in methods, or typed by the contracts (attr_types)
+        extra = {}
+        for c in ci.mro():
+            for fn, ann in c.self_annotations().items():
+                if fn not in names and fn not in extra:
+                    extra[fn] = T.parse_ann(ann, c.module, c)
+            for key, ann in list(REG.attr_types.items()) + list(st.cfg["contract"].attr_types.items() if st.cfg.get("contract") else []):
+                cn, _, fn = key.partition(".")
+                if cn == c.name and fn not in names and fn not in extra:
+                    extra[fn] = T.parse_ann(parse_expr(ann), c.module, c)
+        for fn in names + list(extra):
             key = "f:" + fn
             if key in heap:
-                fty = T.field_type(ci, fn)
+                fty = T.field_type(ci, fn) or extra.get(fn)
                 out[fn] = decode_deep(model, st, heap, z3.Select(heap[key], r), fty, depth + 1, seen)
     return out
 
